@@ -1,12 +1,14 @@
-import PhyModel.Proofs.DictRT
+import PhyModel.Proofs.DictInv
 import PhyModel.Proofs.TraceEntries
 /-! # C15 — trees survive serialisation; trace entries are self-consistent
 
 Part 1 is about the store model of `phyclone.tree.Tree` (`Model/Store.lean`: `toDict`, `fromDict`, with
 `buildSF` the rebuild of the graph from the edge list, payloads re-created by `TreeNode(...)` +
-`add_data_point_list` in `_data` order, then `update()`).  The hypothesis `WFd` (`Model/DictRT.lean`) is
-the part of the store invariants of C06/C07 the round trip needs; graph indices may have arbitrary
-gaps and any order, node names are arbitrary integers, outliers and clone-less trees are included.
+`add_data_point_list` in `_data` order, then `update()`).  The hypotheses are the shared store
+invariants of C06/C07 (`Proofs/StoreInv.lean`: `WF`, `Full`, `CacheOK`) plus the payload-order
+normalisation `Aligned`; `WFd` (`Model/DictRT.lean`) is the part of them the round trip actually needs
+(`wfd_of_shared`).  Graph indices may have arbitrary gaps and any order, node names are arbitrary
+non-negative integers, outliers and clone-less trees are included.
 
 Part 2 is about the main loop of `run.py:_run_main_sampler`: its control-flow skeleton
 (`RunLoop.mainFrom` / `runSchedule`, the model the driver executes for the correspondence) and the
@@ -16,15 +18,27 @@ time-limit comparison are oracles, so the statements hold for every outcome of e
 namespace PhyModel.Props.C15
 open PhyModel PhyModel.Store PhyModel.Store.Store PhyModel.RunLoop PhyModel.TraceLoop
 
+/-- The invariants a reachable store satisfies, in the shared vocabulary of `Proofs/StoreInv.lean`:
+C07's `WF` (names / graph indices unique, the two maps are exactly the payload pairs, `_data` keyed by
+clone names or the outlier key and listing each clone's payload set, every data point in one place;
+graph indices may have arbitrary gaps), `Full` (every clone has a `_data` entry), C06's `CacheOK`, and
+the payload-order normalisation `Aligned` (`Model/DictRT.lean`: the payload's data-point set is listed
+in `_data` order, the order in which `from_dict` re-adds it). -/
+def Inv (dt : Data) (s : Store) : Prop := WF s ∧ Full s ∧ CacheOK dt s ∧ Aligned s
+
+theorem Inv.wfd {dt : Data} {s : Store} (h : Inv dt s) : WFd dt s :=
+  wfd_of_shared dt s h.1 h.2.1 h.2.2.1 h.2.2.2
+
 /-! ## Part 1: dictionary round trip -/
 
-/-- **Round trip.**  For every store satisfying `WFd`, `Tree.from_dict(t.to_dict())` succeeds and
-yields `normRoot dt s`: the same payload forest (shape, graph indices with their gaps, names, data
-points, cached `log_p` and `log_r` of every clone), the same two index maps, the same `_data` map
-(outliers included), the same `_last_node_added_to`, and — whenever the tree has a clone — the same
-root vector, i.e. literally the same store; on a clone-less tree only the never-read root vector is
+/-- **Round trip, minimal hypotheses.**  For every store satisfying `WFd` (the part of the invariants
+the round trip needs, `Model/DictRT.lean`), `Tree.from_dict(t.to_dict())` succeeds and yields
+`normRoot dt s`: the same payload forest (shape, graph indices with their gaps, names, data points,
+cached `log_p` and `log_r` of every clone), the same two index maps, the same `_data` map (outliers
+included), the same `_last_node_added_to`, and — whenever the tree has a clone — the same root
+vector, i.e. literally the same store; on a clone-less tree only the never-read root vector is
 recomputed.  Consequently both joint densities (`log_p_one`, `log_p`) agree for every `α`. -/
-theorem fromDict_toDict (dt : Data) (s : Store) (h : WFd dt s) :
+theorem fromDict_toDict_wfd (dt : Data) (s : Store) (h : WFd dt s) :
     fromDict dt (toDict s) = some (normRoot dt s) ∧
     (normRoot dt s).forest = s.forest ∧ (normRoot dt s).nodeIdx = s.nodeIdx ∧
     (normRoot dt s).nodeIdxRev = s.nodeIdxRev ∧ (normRoot dt s).data = s.data ∧
@@ -35,13 +49,25 @@ theorem fromDict_toDict (dt : Data) (s : Store) (h : WFd dt s) :
     normRoot_of_not_nil dt s, fun α => pOneC_normRoot dt α s, fun α => pMargC_normRoot dt α s⟩ <;>
   (unfold normRoot; split <;> rfl)
 
+/-- **Round trip** for every store satisfying the shared invariants `WF s ∧ Full s ∧ CacheOK dt s`
+and `Aligned s` (any gaps in the graph indices, any names, outliers, clone-less trees): same forest,
+names, indices, `_data`, last-added clone, labels, cached vectors and both densities. -/
+theorem fromDict_toDict (dt : Data) (s : Store) (hw : WF s) (hf : Full s) (hc : CacheOK dt s) (ha : Aligned s) :
+    fromDict dt (toDict s) = some (normRoot dt s) ∧
+    (normRoot dt s).forest = s.forest ∧ (normRoot dt s).nodeIdx = s.nodeIdx ∧
+    (normRoot dt s).nodeIdxRev = s.nodeIdxRev ∧ (normRoot dt s).data = s.data ∧
+    (normRoot dt s).last = s.last ∧ (normRoot dt s).labels = s.labels ∧
+    (s.forest.isNil = false → normRoot dt s = s) ∧
+    (∀ α, pOneC dt α (normRoot dt s) = pOneC dt α s) ∧ (∀ α, pMargC dt α (normRoot dt s) = pMargC dt α s) :=
+  fromDict_toDict_wfd dt s (wfd_of_shared dt s hw hf hc ha)
+
 /-- **Exact round trip.**  If moreover the root vector is current (always the case after any edit
 that touched a clone, after `update()`, and after a first round trip), the restored store *is* the
 original: `from_dict(to_dict(t)) = t`, field by field, caches included. -/
-theorem fromDict_toDict_eq (dt : Data) (s : Store) (h : WFd dt s)
+theorem fromDict_toDict_eq (dt : Data) (s : Store) (h : Inv dt s)
     (hr : s.forest.isNil = true → s.rootR = recompRoot dt s.forest) :
     fromDict dt (toDict s) = some s := by
-  rw [fromDict_toDict_norm dt s h]
+  rw [fromDict_toDict_norm dt s h.wfd]
   congr 1
   unfold normRoot
   split
@@ -51,16 +77,22 @@ theorem fromDict_toDict_eq (dt : Data) (s : Store) (h : WFd dt s)
     rw [← hr hn]
   · rfl
 
-/-- The restored store satisfies the invariant again and is a fixed point of the round trip. -/
-theorem roundtrip_fixed_point (dt : Data) (s : Store) (h : WFd dt s) :
-    WFd dt (normRoot dt s) ∧ fromDict dt (toDict (normRoot dt s)) = some (normRoot dt s) := by
-  have hw : WFd dt (normRoot dt s) := by
-    unfold normRoot
-    split
-    · rename_i hn
-      exact ⟨h.idxNodup, h.idxPos, h.mapFwd, h.mapRev, h.dataOf, h.dpsNodup, h.dataKeys, h.cache,
-        fun hc => by simp only at hc; rw [hn] at hc⟩
-    · exact h
+theorem inv_normRoot (dt : Data) (s : Store) (h : Inv dt s) : Inv dt (normRoot dt s) := by
+  unfold normRoot
+  split
+  · rename_i hn
+    obtain ⟨hw, hf, hc, ha⟩ := h
+    refine ⟨⟨hw.names_nodup, hw.idxs_nodup, hw.idx_pos, hw.name_nonneg, hw.nodeIdx_keys, hw.nodeIdxRev_keys,
+      hw.nodeIdx_iff, hw.nodeIdxRev_iff, hw.data_keys, hw.data_sub, hw.payload_data, hw.data_nodup⟩, hf, ⟨hc.1, ?_⟩, ha⟩
+    intro hc2
+    simp only at hc2
+    rw [hn] at hc2
+  · exact h
+
+/-- The restored store satisfies the invariants again and is a fixed point of the round trip. -/
+theorem roundtrip_fixed_point (dt : Data) (s : Store) (h : Inv dt s) :
+    Inv dt (normRoot dt s) ∧ fromDict dt (toDict (normRoot dt s)) = some (normRoot dt s) := by
+  have hw := inv_normRoot dt s h
   refine ⟨hw, fromDict_toDict_eq dt _ hw ?_⟩
   intro hn
   by_cases hc : s.forest.isNil = true
@@ -68,13 +100,15 @@ theorem roundtrip_fixed_point (dt : Data) (s : Store) (h : WFd dt s) :
   · exfalso; simp [normRoot, hc] at hn
 
 /-- **Further editing.**  A dictionary round trip of any live handle in the middle of an edit history
-(`Op.dictRT`, the model of `t = Tree.from_dict(t.to_dict())`) never fails on a well-formed store and
-changes nothing that any later operation can see: every continuation `ops` (placements, data-point
-moves, `get_subtree` / `remove_subtree` / `add_subtree`, `relabel_nodes`, `copy`, further round
-trips, node creation with index allocation) runs to the same result — same failure or same stores —
-as without the round trip. -/
+(`Op.dictRT`, the model of `t = Tree.from_dict(t.to_dict())`) never fails on a store satisfying the
+invariants and changes nothing that any later operation can see: every continuation `ops`
+(placements, data-point moves, `get_subtree` / `remove_subtree` / `add_subtree`, `relabel_nodes`,
+`copy`, further round trips, node creation with index allocation) runs to the same result — same
+failure or same stores — as without the round trip.  (In the code the stored order of a clone's
+children may be permuted by the round trip, so names handed out by a later `relabel_nodes` /
+`add_subtree` agree up to that permutation only; the check compares continuations clone by clone.) -/
 theorem roundtrip_edits_commute (dt : Data) (sys : Sys) (h : ℕ) (s : Store) (hs : sys[h]? = some s)
-    (hw : WFd dt s) (hr : s.forest.isNil = true → s.rootR = recompRoot dt s.forest) (ops : List Op) :
+    (hw : Inv dt s) (hr : s.forest.isNil = true → s.rootR = recompRoot dt s.forest) (ops : List Op) :
     run dt sys (Op.dictRT h :: ops) = run dt sys ops := by
   have hset : setH sys h s = sys := by
     obtain ⟨hlt, hget⟩ := List.getElem?_eq_some_iff.1 hs
@@ -102,22 +136,28 @@ def exStore : Store := ((run exData [Store.init exData] exOps).getD []).getD 0 (
 example : exStore.forest.idxs = [3, 1] ∧ exStore.forest.names = [2, 0] ∧ exStore.outliers = [4] ∧
     (toDict exStore).edges = [(0, 3), (3, 1)] ∧ exStore.last = some (-1) := by decide +kernel
 
-theorem exStore_wfd : WFd exData exStore := (wfdB_iff exData exStore).1 (by decide +kernel)
+/-- the shared invariants hold of a concrete store once the executable tests pass -/
+theorem inv_of_tests (dt : Data) (s : Store)
+    (h : (wfShB s && fullB s && cacheOKB dt s && alignedB s) = true) : Inv dt s := by
+  simp only [Bool.and_eq_true] at h
+  exact ⟨wf_of_wfShB s h.1.1.1, full_of_fullB s h.1.1.2, cacheOK_of_cacheOKB dt s h.1.2, aligned_of_alignedB s h.2⟩
+
+theorem exStore_inv : Inv exData exStore := inv_of_tests _ _ (by decide +kernel)
 
 example : fromDict exData (toDict exStore) = some exStore :=
-  fromDict_toDict_eq exData exStore exStore_wfd (by decide +kernel)
-example := fromDict_toDict exData exStore exStore_wfd
-example := roundtrip_fixed_point exData exStore exStore_wfd
-/-- continue editing after the round trip: a new clone (allocates a graph index), then re-attach the
-pruned subtree under it -/
-example := roundtrip_edits_commute exData [exStore] 0 exStore rfl exStore_wfd (by decide +kernel)
-  [.create 0 [2] [], .relabel 0]
-/-- clone-less trees: an outlier-only store restores with the recomputed (never read) root vector;
-the fresh store's root vector is all ones, `update()` makes it the prior -/
-example : WFd exData (Store.init exData) ∧
+  fromDict_toDict_eq exData exStore exStore_inv (by decide +kernel)
+example := fromDict_toDict exData exStore exStore_inv.1 exStore_inv.2.1 exStore_inv.2.2.1 exStore_inv.2.2.2
+example := fromDict_toDict_wfd exData exStore exStore_inv.wfd
+example := roundtrip_fixed_point exData exStore exStore_inv
+/-- continue editing after the round trip: a new clone (allocates a graph index), then relabel -/
+example := roundtrip_edits_commute exData [exStore] 0 exStore rfl exStore_inv (by decide +kernel)
+  [.create 0 [2] [4], .relabel 0]
+/-- clone-less trees: the fresh store's root vector is all ones, `update()` makes it the prior; an
+outlier-only store restores with the recomputed (never read) root vector -/
+example : Inv exData (Store.init exData) ∧
     (fromDict exData (toDict (Store.init exData))).map (·.rootR) = some [[1/2, 1/2]] ∧
     (Store.init exData).rootR = [[1, 1]] := by
-  refine ⟨(wfdB_iff _ _).1 (by decide +kernel), by decide +kernel, by decide +kernel⟩
+  refine ⟨inv_of_tests _ _ (by decide +kernel), by decide +kernel, by decide +kernel⟩
 
 /-! ## Part 2: the trace -/
 
@@ -197,27 +237,27 @@ restores with `Tree.from_dict`, and `log_p_one` of the restored tree under the e
 concentration value is the entry's recorded `log_p_one` — for every outcome of the samplers, of the
 concentration draws and of the clock, with the concentration update on or off. -/
 theorem entry_consistent (dt : Data) (o : Oracles) (cu : Bool) (thin numIters : ℕ) (st0 : St)
-    (h0 : WFd dt st0.tree) (hstep : ∀ i s, WFd dt s → WFd dt (o.moves i s).relabelNodes) :
+    (h0 : Inv dt st0.tree) (hstep : ∀ i s, Inv dt s → Inv dt (o.moves i s).relabelNodes) :
     ∀ e ∈ (runMain dt o cu thin numIters st0).1,
       ∃ s', fromDict dt e.tree = some s' ∧ pOneC dt e.alpha s' = e.logPOne := by
   intro e he
   obtain ⟨j, t, k, rfl⟩ := mem_trace dt o cu thin numIters st0 e he
-  have hw := stateAt_inv o cu st0 (WFd dt) h0 hstep k
-  exact ⟨_, mkEntry_restores dt j t _ hw⟩
+  have hw := stateAt_inv o cu st0 (Inv dt) h0 hstep k
+  exact ⟨_, mkEntry_restores dt j t _ hw.wfd⟩
 
 /-- **Entries hold all data.**  If moreover the samplers conserve the data (every index of `0..n-1` in
 exactly one place, C07 `data_conserved`), every recorded entry restores to a tree that holds every
 data point exactly once. -/
 theorem entry_data_complete (dt : Data) (n : ℕ) (o : Oracles) (cu : Bool) (thin numIters : ℕ) (st0 : St)
-    (h0 : WFd dt st0.tree ∧ dataCompleteB n st0.tree = true)
-    (hstep : ∀ i s, WFd dt s ∧ dataCompleteB n s = true →
-      WFd dt (o.moves i s).relabelNodes ∧ dataCompleteB n (o.moves i s).relabelNodes = true) :
+    (h0 : Inv dt st0.tree ∧ dataCompleteB n st0.tree = true)
+    (hstep : ∀ i s, Inv dt s ∧ dataCompleteB n s = true →
+      Inv dt (o.moves i s).relabelNodes ∧ dataCompleteB n (o.moves i s).relabelNodes = true) :
     ∀ e ∈ (runMain dt o cu thin numIters st0).1,
       ∃ s', fromDict dt e.tree = some s' ∧ dataCompleteB n s' = true := by
   intro e he
   obtain ⟨j, t, k, rfl⟩ := mem_trace dt o cu thin numIters st0 e he
-  have hw := stateAt_inv o cu st0 (fun s => WFd dt s ∧ dataCompleteB n s = true) h0 hstep k
-  refine ⟨_, (mkEntry_restores dt j t _ hw.1).1, ?_⟩
+  have hw := stateAt_inv o cu st0 (fun s => Inv dt s ∧ dataCompleteB n s = true) h0 hstep k
+  refine ⟨_, (mkEntry_restores dt j t _ hw.1.wfd).1, ?_⟩
   have := hw.2
   unfold dataCompleteB at this ⊢
   rw [labels_normRoot]
@@ -225,9 +265,6 @@ theorem entry_data_complete (dt : Data) (n : ℕ) (o : Oracles) (cu : Bool) (thi
 
 /-! ### non-vacuity: a two-iteration chain on `exData` whose "sampler" moves data point 4 from the
 outliers into clone 0 in iteration 0 and whose concentration draws are 2 and 3 -/
-
-def exStore5 : Store :=
-  ((run exData [exStore] [.create 0 [2] [], .addSub 0 0 none]).getD []).getD 0 exStore
 
 def exFull : Store :=
   ((run exData [Store.init exData] [.create 0 [] [0, 1], .create 0 [0] [2, 3], .addDp 0 4 (-1)]).getD []).getD 0
@@ -246,10 +283,10 @@ example : (runMain exData exO true 1 2 ⟨exFull, 1⟩).1.map (fun e => (e.iter,
     = [(0, 1, pOneC exData 1 exFull), (0, 2, pOneC exData 2 exMoved.relabelNodes),
        (1, 3, pOneC exData 3 exMoved.relabelNodes.relabelNodes)] := by decide +kernel
 
-example : WFd exData exFull ∧ dataCompleteB 5 exFull = true ∧
-    WFd exData exMoved.relabelNodes ∧ dataCompleteB 5 exMoved.relabelNodes = true ∧
+example : Inv exData exFull ∧ dataCompleteB 5 exFull = true ∧
+    Inv exData exMoved.relabelNodes ∧ dataCompleteB 5 exMoved.relabelNodes = true ∧
     pOneC exData 1 exFull ≠ pOneC exData 2 exMoved.relabelNodes := by
-  refine ⟨(wfdB_iff _ _).1 (by decide +kernel), by decide +kernel, (wfdB_iff _ _).1 (by decide +kernel),
+  refine ⟨inv_of_tests _ _ (by decide +kernel), by decide +kernel, inv_of_tests _ _ (by decide +kernel),
     by decide +kernel, by decide +kernel⟩
 
 end PhyModel.Props.C15
